@@ -236,6 +236,15 @@ def gen_config(r: random.Random, profile: str = "valid") -> Dict[str, Any]:
            "knobs": {}, "setup_only": r.random() < 0.8, "c18": True, "taps": False}
     if profile == "hostile":
         make_hostile(r, scn)
+    elif r.random() < 0.04:
+        # the first market group names a class that is registered only after a first, refused set-up
+        g0 = cfg["simulation"]["markets"][0]
+        try:
+            if ref_resolve(cfg, g0, ("from", "to")).get("class") == "TapMarket":
+                _set_effective(cfg, g0, "class", "LateMarket")
+                scn["late_class"] = True
+        except Exception:
+            pass
     return scn
 
 
